@@ -23,7 +23,7 @@ def ArgRep (ty : ArgTy) (v : View) (cv : CVal) : Prop :=
 def KindOK (ty : ArgTy) (cv : CVal) : Prop :=
   match paramKind ty, cv with
   | .ptr, .ptr _ _ => True
-  | .win, .win _ _ _ => True
+  | .win _, .win _ _ _ => True
   | _, _ => False
 
 /-- a window expression as an actual argument / the right-hand side of a window statement -/
